@@ -44,6 +44,7 @@ type scenario struct {
 	call     func(a [][]byte) outcome
 	mayAlias map[string]bool  // argument roles a result is allowed to share memory with
 	inner    func() *scenario // the exported function one level down, fed the same arguments
+	focus    string           // length-dimension scenarios: the argument whose length is being varied (reduced layout set)
 }
 
 const guard = 32
@@ -323,13 +324,21 @@ func (sc *scenario) condName(c cond) string {
 // pattern, and merges what the two runs show. An aliasing condition on an
 // argument the call also wrote to is the same defect seen twice (an in-place
 // append both writes the caller's memory and returns it) and is dropped.
-func (sc *scenario) run(l layout) ([]cond, outcome) {
+func (sc *scenario) run(l layout) ([]cond, outcome) { return sc.runS(l, nil) }
+
+// runS is run inside a session: the session remembers the buffers earlier calls
+// returned (they belong to the caller: no later call may write to them) and
+// keeps every input arena for the re-verification after garbage collection.
+func (sc *scenario) runS(l layout, ss *session) ([]cond, outcome) {
 	var merged []cond
 	var out outcome
 	for _, flip := range []bool{false, true} {
 		arena, slices, spans := carveArena(sc.args, l, flip)
 		before := clone(arena)
 		out = sc.call(slices)
+		if ss != nil {
+			ss.afterCall(sc, l, arena, spans, out)
+		}
 		for _, c := range judge(sc, arena, before, spans, out) {
 			dup := false
 			for i, m := range merged {
@@ -390,8 +399,16 @@ type finding struct{ key, msg string }
 
 // evaluate runs the scenario and attributes each condition to the innermost
 // exported function that shows the same condition on the same arguments.
-func (sc *scenario) evaluate(spare layout) ([]finding, outcome) {
-	conds, out := sc.run(spare)
+func (sc *scenario) evaluate(spare layout) ([]finding, outcome) { return sc.evaluateS(spare, nil) }
+
+func (sc *scenario) evaluateS(spare layout, ss *session) ([]finding, outcome) {
+	conds, out := sc.runS(spare, ss)
+	return sc.attribute(spare, conds, out, "", func(in *scenario, il layout) []cond { c, _ := in.run(il); return c }), out
+}
+
+// attribute names each condition after the innermost exported function that
+// shows it when fed the same arguments (rerun re-evaluates an inner scenario).
+func (sc *scenario) attribute(spare layout, conds []cond, out outcome, when string, rerun func(in *scenario, il layout) []cond) []finding {
 	var fs []finding
 	for _, c := range conds {
 		site, name := sc.site, sc.condName(c)
@@ -402,7 +419,7 @@ func (sc *scenario) evaluate(spare layout) ([]finding, outcome) {
 				break
 			}
 			il := layoutFor(in, cur, lay)
-			ic, _ := in.run(il)
+			ic := rerun(in, il)
 			found := false
 			for _, x := range ic {
 				if x.ident() == c.ident() {
@@ -417,9 +434,9 @@ func (sc *scenario) evaluate(spare layout) ([]finding, outcome) {
 			}
 			cur, lay = in, il
 		}
-		fs = append(fs, finding{site + "/" + name, fmt.Sprintf("%s %s%s: %s; call outcome: %s %s", sc.id, layoutString(sc, spare), via, c.describe(), out.kind, out.err)})
+		fs = append(fs, finding{site + "/" + name, fmt.Sprintf("%s %s%s: %s%s; call outcome: %s %s", sc.id, layoutString(sc, spare), via, c.describe(), when, out.kind, out.err)})
 	}
-	return fs, out
+	return fs
 }
 
 func layoutString(sc *scenario, l layout) string {
@@ -438,7 +455,7 @@ func layoutString(sc *scenario, l layout) string {
 }
 
 // spares is the spare-capacity set of the property's quantifier.
-var spares = []int{0, 1, 15, 16, 17, 64}
+var spares = []int{0, 1, 8, 15, 16, 17, 64}
 
 // layouts: every argument gets the same spare (all at once); each carved
 // argument alone gets each non-zero spare (one at a time; an AEAD destination
@@ -449,6 +466,28 @@ var spares = []int{0, 1, 15, 16, 17, 64}
 func layouts(sc *scenario) []layout {
 	var out []layout
 	n := len(sc.args)
+	if sc.focus != "" {
+		// a length-dimension scenario: the argument whose length varies gets
+		// every spare capacity, with the others at the same spare and at none
+		for _, s := range spares {
+			l := make([]int, n)
+			for i := range l {
+				l[i] = s
+			}
+			out = append(out, layout{spare: l})
+		}
+		for i, a := range sc.args {
+			if a.role != sc.focus {
+				continue
+			}
+			for _, s := range spares[1:] {
+				l := make([]int, n)
+				l[i] = s
+				out = append(out, layout{spare: l})
+			}
+		}
+		return out
+	}
 	for _, s := range spares {
 		l := make([]int, n)
 		for i := range l {
